@@ -39,6 +39,14 @@ pub struct Job {
     /// before the live heap is read again
     #[serde(default)]
     pub thread: bool,
+    /// between the calls of a history the caller takes the output buffer out of the public
+    /// `output` field (std::mem::take) instead of copying the returned bytes
+    #[serde(default)]
+    pub take_output: bool,
+    /// leak measurement: number of generation calls (each with a different input) per phase; the
+    /// number of live allocations after reset() is compared between two phases
+    #[serde(default)]
+    pub growth: usize,
 }
 
 fn yes() -> bool {
@@ -75,6 +83,9 @@ pub fn run_job(job: &Job) -> Value {
             } else {
                 g.generate_from_arbitrary(&input)
             };
+            if job.take_output {
+                let _ = std::mem::take(&mut g.output);
+            }
         }
         if job.rec {
             verif::start_recording(job.heap);
